@@ -16,22 +16,24 @@ func (Scenario) Generate(rng *rand.Rand, focus, tier string) kernel.Plan {
 		"vest_pool": rng.Int63n(64),
 	}
 	w := map[string]int{"regcoin": 8, "addcoin": 6, "regerc20": 6, "toggle": 4, "upderc20": 3, "param": 4, "convcoin": 16, "converc": 14,
-		"suicide": 1, "block": 24, "advance": 10, "crash": 2, "export": 1, "stake": 0, "regcoin2": 2, "liemode": 1, "votemode": 1}
+		"suicide": 1, "block": 24, "advance": 10, "crash": 2, "export": 1, "stake": 0, "regcoin2": 2, "liemode": 1, "votemode": 1, "evidence": 0}
 	switch focus {
 	case "C11":
 		w["liemode"], w["convcoin"], w["converc"] = 4, 20, 18
 	case "C12":
 		w["regcoin"], w["addcoin"], w["upderc20"], w["toggle"], w["suicide"] = 10, 10, 6, 5, 3
 	case "C20":
-		w["param"], w["block"] = 14, 34
+		w["param"], w["block"], w["evidence"] = 14, 34, 1
 	case "C15":
 		w["param"], w["block"], w["regcoin2"], w["addcoin"] = 12, 34, 8, 8
 	case "C17":
-		w["stake"], w["votemode"], w["param"], w["advance"] = 30, 5, 8, 14
+		w["stake"], w["votemode"], w["param"], w["advance"], w["evidence"] = 30, 5, 8, 14, 3
 	case "C13":
 		w["export"] = 5
+	case "C14":
+		w["evidence"] = 1
 	}
-	order := []string{"regcoin", "addcoin", "regerc20", "toggle", "upderc20", "param", "convcoin", "converc", "suicide", "block", "advance", "crash", "export", "stake", "regcoin2", "liemode", "votemode"}
+	order := []string{"regcoin", "addcoin", "regerc20", "toggle", "upderc20", "param", "convcoin", "converc", "suicide", "block", "advance", "crash", "export", "stake", "regcoin2", "liemode", "votemode", "evidence"}
 	total := 0
 	for _, k := range order {
 		total += w[k]
@@ -84,6 +86,8 @@ func (Scenario) Generate(rng *rand.Rand, focus, tier string) kernel.Plan {
 			add("liemode", rng.Int63n(3))
 		case "votemode":
 			add("votemode", rng.Int63n(4))
+		case "evidence":
+			add("evidence", rng.Int63n(2))
 		case "regerc20":
 			add("regerc20", rng.Int63n(5))
 		case "toggle":
